@@ -23,7 +23,13 @@ def run_rules(repo, config):
     for name in catalog.RULE_MODULES:
         mod = importlib.import_module('rules.' + name)
         t0 = time.time()
-        mod.run(ctx)
+        try:
+            mod.run(ctx)
+        except Exception:                      # a rule that cannot digest the program decides nothing: fail closed, per rule
+            import traceback
+            tb = traceback.format_exc()
+            for rid in catalog.MODULE_RULES.get(name, [name.upper()]):
+                ctx.crashed[rid] = tb[-1200:]
         ctx.stat(getattr(mod, 'RULE', name.upper()), wall_s=round(time.time() - t0, 3))
     return prog, ctx
 
@@ -73,6 +79,9 @@ def check(prop, tier, repo, write_evidence=True):
             import math
             if n < max(1, math.ceil(floor * ctx.floor_scale)):
                 fail_closed.append('rule %s produced %d instances for %s, floor is %d (an extractor or recogniser lost its anchors)' % (rule, n, prop, floor))
+        for rid, tb in sorted(ctx.crashed.items()):
+            if rid in spec.get('floors', {}):
+                fail_closed.append('rule %s could not be evaluated on this tree (internal error of the checker, property undecided): %s' % (rid, tb))
         if prog.info.get('n_fns', 0) < catalog.MIN_FUNCTIONS:
             fail_closed.append('only %d function bodies seen, expected at least %d' % (prog.info.get('n_fns', 0), catalog.MIN_FUNCTIONS))
     # configurations must agree (thorough)
